@@ -59,16 +59,19 @@ def Frame (op : Op) (before after : Nat → Option View) (nObjs : Nat) : Prop :=
 instance (op : Op) (b a : Nat → Option View) (n : Nat) : Decidable (Frame op b a n) :=
   inferInstanceAs (Decidable (∀ g < n, some g ≠ op.target → a g = b g))
 
-/-- `Fresh`: the augmented nodes that exist after the operation and did not exist before were not
-names of existing nodes, and a successful `add_f_node(ts)` creates exactly such a node, registered
-with `ts` (as a set). -/
-def CreatedF (before after : View) (ts : List Nat) : Prop :=
-  ∃ k ∈ dKeys after.fs, Node.f k ∉ before.nodes ∧ Node.f k ∈ after.nodes ∧
-    ∃ p ∈ after.fs, p.1 = k ∧ sameSet p.2.targets ts = true
+/-- two F-entries say the same (targets and domain are Python sets) -/
+def sameEntry (a b : FEntry) : Bool := sameSet a.targets b.targets && sameSet a.domain b.domain
 
-instance (b a : View) (ts : List Nat) : Decidable (CreatedF b a ts) :=
+/-- `Fresh`: the augmented nodes that exist after the operation and did not exist before were not
+names of existing nodes, and a successful `add_f_node(ts, domain)` creates exactly such a node,
+registered with `ts` and the domain (as sets). -/
+def CreatedF (before after : View) (e : FEntry) : Prop :=
+  ∃ k ∈ dKeys after.fs, Node.f k ∉ before.nodes ∧ Node.f k ∈ after.nodes ∧
+    ∃ p ∈ after.fs, p.1 = k ∧ sameEntry p.2 e = true
+
+instance (b a : View) (e : FEntry) : Decidable (CreatedF b a e) :=
   inferInstanceAs (Decidable (∃ k ∈ dKeys a.fs, Node.f k ∉ b.nodes ∧ Node.f k ∈ a.nodes ∧
-    ∃ p ∈ a.fs, p.1 = k ∧ sameSet p.2.targets ts = true))
+    ∃ p ∈ a.fs, p.1 = k ∧ sameEntry p.2 e = true))
 
 def CreatedS (before after : View) (d : Nat × Nat) : Prop :=
   ∃ k ∈ dKeys after.ss, Node.s k ∉ before.nodes ∧ Node.s k ∈ after.nodes ∧ (k, d) ∈ after.ss
@@ -77,20 +80,20 @@ instance (b a : View) (d : Nat × Nat) : Decidable (CreatedS b a d) :=
   inferInstanceAs (Decidable (∃ k ∈ dKeys a.ss, Node.s k ∉ b.nodes ∧ Node.s k ∈ a.nodes ∧ (k, d) ∈ a.ss))
 
 /-- `Stable`: every F-node registered before and not removed by this very call is still registered
-with the same targets (same entry), every S-node likewise: no call re-targets somebody else's entry. -/
+with the same targets and domain, every S-node likewise: no call re-targets somebody else's entry. -/
 def Stable (op : LOp) (before after : View) : Prop :=
-  (∀ p ∈ before.fs, op ≠ .rmF p.1 → ∃ q ∈ after.fs, q.1 = p.1 ∧ sameSet q.2.targets p.2.targets = true) ∧
+  (∀ p ∈ before.fs, op ≠ .rmF p.1 → ∃ q ∈ after.fs, q.1 = p.1 ∧ sameEntry q.2 p.2 = true) ∧
   (∀ p ∈ before.ss, op ≠ .rmS p.1 → p ∈ after.ss)
 
 instance (op : LOp) (b a : View) : Decidable (Stable op b a) :=
-  inferInstanceAs (Decidable ((∀ p ∈ b.fs, op ≠ .rmF p.1 → ∃ q ∈ a.fs, q.1 = p.1 ∧ sameSet q.2.targets p.2.targets = true) ∧
+  inferInstanceAs (Decidable ((∀ p ∈ b.fs, op ≠ .rmF p.1 → ∃ q ∈ a.fs, q.1 = p.1 ∧ sameEntry q.2 p.2 = true) ∧
     (∀ p ∈ b.ss, op ≠ .rmS p.1 → p ∈ a.ss)))
 
 /-- the same content, as sets (a copy shows what its original shows) -/
 def SameContent (a b : View) : Prop :=
   (∀ n ∈ a.nodes, n ∈ b.nodes) ∧ (∀ n ∈ b.nodes, n ∈ a.nodes) ∧
-  (∀ p ∈ a.fs, ∃ q ∈ b.fs, q.1 = p.1 ∧ sameSet q.2.targets p.2.targets = true) ∧
-  (∀ p ∈ b.fs, ∃ q ∈ a.fs, q.1 = p.1 ∧ sameSet q.2.targets p.2.targets = true) ∧
+  (∀ p ∈ a.fs, ∃ q ∈ b.fs, q.1 = p.1 ∧ sameEntry q.2 p.2 = true) ∧
+  (∀ p ∈ b.fs, ∃ q ∈ a.fs, q.1 = p.1 ∧ sameEntry q.2 p.2 = true) ∧
   (∀ p ∈ a.ss, p ∈ b.ss) ∧ (∀ p ∈ b.ss, p ∈ a.ss)
 
 instance (a b : View) : Decidable (SameContent a b) := by unfold SameContent; exact inferInstance
@@ -112,12 +115,12 @@ def StepOK (op : Op) (ok : Bool) (before after : Nat → Option View) (nb na : N
      ∀ b ∈ before g, ∀ a ∈ after g,
        Stable lop b a ∧
        (match lop with
-        | .addF ts _ _ => ok = true → CreatedF b a ts
+        | .addF ts _ dom => ok = true → CreatedF b a ⟨ts, dom.getD [1]⟩
         | .addS d _ => ok = true → CreatedS b a d
         | _ => True)
    | .copy g => ok = true → ∀ b ∈ before g, ∀ a ∈ after nb, SameContent b a
    | .allS g _ => ok = true → ∀ b ∈ before g, ∀ a ∈ after nb,
-       (∀ p ∈ b.fs, ∃ q ∈ a.fs, q.1 = p.1 ∧ sameSet q.2.targets p.2.targets = true) ∧ (∀ p ∈ b.ss, p ∈ a.ss)
+       (∀ p ∈ b.fs, ∃ q ∈ a.fs, q.1 = p.1 ∧ sameEntry q.2 p.2 = true) ∧ (∀ p ∈ b.ss, p ∈ a.ss)
    | .new _ => ok = true → ∀ a ∈ after nb, a.nodes = [] ∧ a.fs = [] ∧ a.ss = [])
 
 instance (op : Op) (ok : Bool) (b a : Nat → Option View) (nb na : Nat) : Decidable (StepOK op ok b a nb na) := by
